@@ -153,3 +153,43 @@ Proof.
 Qed.
 
 
+
+(* the case the headline theorem is about: a wake-up pending (counter 1), functor 7 already queued,
+   NO event ready - only the wake-up channel is dispatched, handleRead consumes the wake-up, the
+   batch [7] runs and queues 8, which wakes again (counter 1 afterwards) *)
+Definition l2_s_stale : L.st := L.mkSt (L.mkG [7] 1 [] false false true []) L.LPoll [] [] [].
+Definition l2_e_stale : P.kenv := P.mkKenv 1 0 (fun _ => 0%N).
+
+Example l2_ex_queue_link_wakeup : exists st' e' act log labs s',
+  P.loop_iter_full_env P.ep P.ep_step_current (fun _ _ => []) W.hq_ex W.fb_ex W.all_run
+    (PP.effects_current 1 0 (fun _ _ e => e)) (L.wake Gen_C04.gen_shape) 4 3 l2_st0 l2_e_stale [7] []
+    = P.Ok (st', e', [8], (act, log, [7])) /\
+  log = [(1, P.CbRead)] /\
+  Rq l2_s_stale l2_e_stale [7] /\
+  flat_map (fun ck => W.hq_ex (fst ck) (snd ck)) log = [] /\
+  P.k_wake (P.apply_effects (PP.effects_current 1 0 (fun _ _ e => e)) log l2_e_stale) = 0%N /\
+  loop_only labs /\ L.run Gen_C04.gen_shape l2_scr l2_s_stale labs = Some s' /\
+  L.pc s' = L.LTest /\ L.pending (L.sg s') = [8] /\ L.evfd (L.sg s') = 1 /\
+  L.execq (L.log (L.sg s')) = [7] /\ P.k_wake e' = 1%N.
+Proof.
+  destruct (P.loop_iter_full_env P.ep P.ep_step_current (fun _ _ => []) W.hq_ex W.fb_ex W.all_run
+              (PP.effects_current 1 0 (fun _ _ e => e)) (L.wake Gen_C04.gen_shape) 4 3 l2_st0 l2_e_stale [7] [])
+    as [[[[st' e'] p'] [[act log] ran]]| |] eqn:Eit; try (vm_compute in Eit; discriminate).
+  assert (Hshape : exists a b c, (p', log, ran, P.k_wake e') = (a, b, c, 1%N) /\ a = [8] /\ b = [(1, P.CbRead)] /\ c = [7]).
+  { pose proof Eit as E2. vm_compute in E2. injection E2 as _ <- <- _ <- <-. eexists _, _, _. repeat split. }
+  destruct Hshape as (a & b & c & Hx & -> & -> & ->). injection Hx as -> -> -> Hk.
+  destruct (c09_iteration_is_c04_schedule P.ep P.ep_step_current (fun _ _ => []) W.hq_ex W.fb_ex W.all_run
+              (PP.effects_current 1 0 (fun _ _ e => e)) 4 3 Gen_C04.gen_shape l2_scr l2_q l2_s_stale
+              l2_st0 l2_e_stale [7] [] st' e' [8] act [(1, P.CbRead)] [7] Eit)
+    as (labs & s' & Hlo & Hrun & Hpc & _ & _ & _ & _ & _ & _ & _ & Hev & Hpend & Hex).
+  - constructor; reflexivity.
+  - intros n; reflexivity.
+  - intros i [<-|[]]; reflexivity.
+  - reflexivity.
+  - reflexivity.
+  - vm_compute. reflexivity.
+  - exists st', e', act, [(1, P.CbRead)], labs, s'. split; [reflexivity|]. split; [reflexivity|].
+    split; [constructor; reflexivity|]. split; [reflexivity|]. split; [vm_compute; reflexivity|].
+    split; [exact Hlo|]. split; [exact Hrun|]. split; [exact Hpc|]. split; [exact Hpend|].
+    split; [rewrite Hk in Hev; lia|]. split; [exact Hex|exact Hk].
+Qed.
